@@ -833,6 +833,18 @@ func (c *Conn) StrayWALWrite(kind string) error {
 	if sz < 32 {
 		sz = 32
 	}
+	if kind == "held-body" {
+		// a connection that does hold the write lock rewrites the body of the newest frame, which LiteFS has captured
+		// already (SQLite never does: the log only grows between restarts)
+		if sz < 32+c.walFrameSize() {
+			return fmt.Errorf("no frame to rewrite")
+		}
+		if err := c.shmLock(WALWriteLock, 1, true); err != nil {
+			return err
+		}
+		defer c.shmUnlock(WALWriteLock, 1)
+		return c.walWrite("wal rewrite of a captured frame body", sz-c.walFrameSize()+24, bytes.Repeat([]byte{0x5a}, c.PageSize))
+	}
 	fh := make([]byte, 24)
 	binary.BigEndian.PutUint32(fh[0:], 2)
 	copy(fh[8:16], hdr[16:24])
